@@ -8,6 +8,6 @@ CONSTANTS
   NoRangeLen = 4
   CodeDen <- Den1
 VIEW View
-INVARIANTS TypeOK PartsOK Partition Complete EncodeOK
+INVARIANTS TypeOK PartsOK Partition Complete EncodeOK PolyOK
 PROPERTIES JoinTotals Progress
 CHECK_DEADLOCK FALSE
